@@ -83,10 +83,10 @@ POPCOUNT_DEFINE_PORTABLE(I64_POPCNT, u64)
 #define ROTR(x, y, mask) \
   (((x) >> ((y) & (mask))) | ((x) << (((mask) - (y) + 1) & (mask))))
 
-#define I32_ROTL(x, y) ((int32_t)ROTL((uint32_t)(x), y, 31))
-#define I64_ROTL(x, y) ((int64_t)ROTL((uint64_t)(x), y, 63))
-#define I32_ROTR(x, y) ((int32_t)ROTR((uint32_t)(x), y, 31))
-#define I64_ROTR(x, y) ((int64_t)ROTR((uint64_t)(x), y, 63))
+#define I32_ROTL(x, y) ((int32_t)ROTL((uint32_t)(x), (uint32_t)(y), 31))
+#define I64_ROTL(x, y) ((int64_t)ROTL((uint64_t)(x), (uint64_t)(y), 63))
+#define I32_ROTR(x, y) ((int32_t)ROTR((uint32_t)(x), (uint32_t)(y), 31))
+#define I64_ROTR(x, y) ((int64_t)ROTR((uint64_t)(x), (uint64_t)(y), 63))
 
 // WebAssembly min/max: a NaN operand gives NaN and -0 is smaller than +0
 // (fmin/fmax of C return the other operand for a NaN and do not order the zeros)
